@@ -131,5 +131,23 @@ def run(tier, v, wd, replay=None):
     with open(efile, "a") as f:
         f.write(open(bfile).read())
     run_vectors(v, wd, repo, "./control/", "TestVerifC13Endpoints", efile, tags="verif,dae_stub_ebpf", timeout=900, outname="out-ep.json")
+    # third part: the kernel flow entries' reference counts - TupleTracker.tla (release of the last reference in three steps,
+    # calls of other owners waiting for a deletion in flight) replayed on the real udpConnStateTracker
+    r = vlib.tlc(wd, "TupleTracker", "TupleTracker_mc.cfg", timeout=1500)
+    v.add_tlc(r)
+    if r.violated:
+        raise vlib.Infra("TupleTracker.tla violates %s in the model" % r.violated)
+    tfile = os.path.join(wd.path, "c13tt.ndjson")
+    r = vlib.tlc(wd, "TupleTracker", "TupleTracker_gen.cfg", emit_to=tfile, workers=4, timeout=1500)
+    v.add_tlc(r)
+    if r.violated:
+        raise vlib.Infra("TupleTracker.tla violates %s in the model (gen)" % r.violated)
+    t2 = os.path.join(wd.path, "c13tt_deep.ndjson")
+    tn = 2000 if tier == "quick" else 60000
+    r = vlib.tlc(wd, "TupleTracker", "TupleTracker_deep.cfg", emit_to=t2, simulate={"num": tn}, depth=40, workers=4, timeout=1500, max_emit=tn)
+    v.add_tlc(r)
+    with open(tfile, "a") as f:
+        f.write(open(t2).read())
+    run_vectors(v, wd, repo, "./control/", "TestVerifC13TupleTracker", tfile, tags="verif,dae_stub_ebpf", timeout=900, outname="out-tt.json")
     v.assumptions += ["schedules are forced at the verif yield points of udp_task_pool.go; steps between two yield points are atomic in the model",
                       "replay runs with GOMAXPROCS(1) so that sync.Pool behaves as the modelled private slot + shared chain"]
